@@ -253,6 +253,27 @@ func sesRun(t *testing.T, lines []string) []string {
 					armed: map[string]int{}, winParked: map[string][]chan struct{}{}}
 				curSes = w
 				w.corsOrigin = corsOrigin
+				for _, extra := range f[12:] {
+					if extra == "slowclose" {
+						// an application middleware that watches the end of every request (logging, metrics) and may be slow:
+						// its "close" listener runs before the transport's own; "ses react reqclose park" makes it wait for "ses unpark"
+						ws := w
+						w.srv.Use(func(ctx *types.HttpContext, next func(error)) {
+							ctx.On("close", func(...any) {
+								for _, call := range ws.reacts["reqclose"] {
+									if call == "park" {
+										ch := make(chan struct{})
+										ws.parkMu.Lock()
+										ws.listenerParked = append(ws.listenerParked, ch)
+										ws.parkMu.Unlock()
+										<-ch
+									}
+								}
+							})
+							next(nil)
+						})
+					}
+				}
 				utils.SetVerifHook(w.hook)
 				w.srv.On("connection", func(a ...any) {
 					s := a[0].(engine.Socket)
